@@ -46,6 +46,71 @@ type pipeGen struct {
 	wSingle, wMulti, wPing, wAuth, wReject, wQuit int
 	maxMultiKeys                                  int
 	errFrag                                       int // 1 in errFrag split requests gets one fragment answered with an error (0 = never)
+	wUnroutable                                   int // weight of requests with a key in an unowned slot (needs a topology with a gap)
+}
+
+// goodSlot draws a slot that has an owner in the environment's topology.
+func (g *pipeGen) goodSlot() int {
+	for {
+		s := g.rng.Intn(16384)
+		if g.env.T.Owner(s) != nil {
+			return s
+		}
+	}
+}
+
+// unownedSlot draws a slot without owner (-1 when the topology has none).
+func (g *pipeGen) unownedSlot() int {
+	var free []int
+	for s := 0; s < 16384; s++ {
+		if g.env.T.Owner(s) == nil {
+			free = append(free, s)
+		}
+	}
+	if len(free) == 0 {
+		return -1
+	}
+	return free[g.rng.Intn(len(free))]
+}
+
+// unroutable builds a request the proxy has to answer itself with an error because
+// (one of) its key(s) lies in a slot nobody owns: a single-key request, or a split
+// request whose other keys are routable (in front of, behind or around the bad one).
+// Nothing of it may reach a node; the requests behind it must be unaffected.
+func (g *pipeGen) unroutable() *PReq {
+	tok := newToken("n")
+	bad := g.unownedSlot()
+	if bad < 0 {
+		return g.reject()
+	}
+	if g.rng.Intn(3) == 0 {
+		key := Key(bad, tok)
+		return &PReq{Kind: "unroutable", Bytes: Req("GET", key), Keys: []string{key}, ExpectErr: true, Local: true, Token: tok}
+	}
+	nk := 2 + g.rng.Intn(6)
+	pos := g.rng.Intn(nk)
+	keys := make([]string, nk)
+	for i := range keys {
+		if i == pos {
+			keys[i] = Key(bad, fmt.Sprintf("%s.%d", tok, i))
+		} else {
+			keys[i] = Key(g.goodSlot(), fmt.Sprintf("%s.%d", tok, i))
+		}
+	}
+	r := &PReq{Kind: "unroutable", Keys: keys, ExpectErr: true, Local: true, Token: tok}
+	switch g.rng.Intn(3) {
+	case 0:
+		r.Bytes = Req(append([]string{"MGET"}, keys...)...)
+	case 1:
+		r.Bytes = Req(append([]string{"DEL"}, keys...)...)
+	default:
+		args := []string{"MSET"}
+		for _, k := range keys {
+			args = append(args, k, "v")
+		}
+		r.Bytes = Req(args...)
+	}
+	return r
 }
 
 func (g *pipeGen) ownerIdx(slot int) int {
@@ -70,7 +135,7 @@ func (g *pipeGen) gateFor(keys ...string) *Gate {
 // single builds a forwarded single-key request with a unique reply.
 func (g *pipeGen) single() *PReq {
 	tok := newToken("t")
-	slot := g.rng.Intn(16384)
+	slot := g.goodSlot()
 	key := Key(slot, tok)
 	r := &PReq{Token: tok, Keys: []string{key}}
 	switch g.rng.Intn(4) {
@@ -103,7 +168,7 @@ func (g *pipeGen) multi() *PReq {
 	nslots := 1 + g.rng.Intn(nk)
 	base := make([]int, nslots)
 	for i := range base {
-		base[i] = g.rng.Intn(16384)
+		base[i] = g.goodSlot()
 	}
 	for i := 0; i < nk; i++ {
 		slots[i] = base[g.rng.Intn(nslots)]
@@ -229,11 +294,13 @@ func (g *pipeGen) pipeline(n int) []*PReq {
 
 func (g *pipeGen) pipeline0(n int) []*PReq {
 	var out []*PReq
-	total := g.wSingle + g.wMulti + g.wPing + g.wAuth + g.wReject + g.wQuit
+	total := g.wSingle + g.wMulti + g.wPing + g.wAuth + g.wReject + g.wQuit + g.wUnroutable
 	quitSeen := false
 	for i := 0; i < n; i++ {
 		x := g.rng.Intn(total)
 		switch {
+		case x >= total-g.wUnroutable:
+			out = append(out, g.unroutable())
 		case x < g.wSingle:
 			out = append(out, g.single())
 		case x < g.wSingle+g.wMulti:
@@ -276,6 +343,8 @@ func kindSig(p []*PReq) string {
 			sb.WriteByte('u')
 		case "arity":
 			sb.WriteByte('w')
+		case "unroutable":
+			sb.WriteByte('n')
 		case "quit":
 			sb.WriteByte('q')
 		}
